@@ -1,16 +1,16 @@
 SPECIFICATION Spec
 CONSTANTS
-  Lens = {2}
+  Lens = {1}
   NCodes = 3
-  MaxDefs = 3
+  MaxDefs = 2
   Dev_h34 = FALSE
   Dev_h35 = FALSE
   Emit = FALSE
   KnownClasses = {}
-  Rich = FALSE
+  Rich = TRUE
   SingleRangeStr = FALSE
   Styles <- CanonOnly
   Dev_gram <- GramAsIs
   BaseVal <- BaseEdge
-INVARIANTS Refines SegmentationOK MapsOK DomainOK BuildForm
+INVARIANTS MapsOK DomainOK BuildForm SegmentationOK
 CHECK_DEADLOCK FALSE
